@@ -20,7 +20,10 @@ class Abort(Exception):
 class Run:
     """One instrumented execution of teneva.cross."""
 
-    def __init__(self, T, none_at=None, cb_true_at=None, max_calls=4000):
+    def __init__(self, T, none_at=None, cb_true_at=None, max_calls=4000,
+            memo=False, answer_dtype=None):
+        self.memo = {} if memo else None # batch bytes -> the array handed out
+        self.answer_dtype = answer_dtype
         self.T = T                       # dense target, float array
         self.n = list(T.shape)
         self.none_at = none_at           # 1-based call number returning None
@@ -56,7 +59,22 @@ class Run:
         Ic = np.array(I, copy=True)
         self.events.append(('batch', Ic))
         self.batches.append(Ic)
-        return self.T[tuple(Ic.T)].copy()
+        if self.memo is not None:
+            # an objective that memoises whole batches and hands out the SAME
+            # array object again for a repeated request
+            key = Ic.tobytes()
+            if key not in self.memo:
+                self.memo[key] = (self.T[tuple(Ic.T)].copy(), Ic)
+            return self.memo[key][0]
+        y = self.T[tuple(Ic.T)].copy()
+        if self.answer_dtype is not None:
+            y = y.astype(self.answer_dtype)
+        return y
+
+    def memo_intact(self):
+        """Arrays handed out by the memoising objective still hold T."""
+        return all(np.array_equal(y, self.T[tuple(Ic.T)])
+            for y, Ic in (self.memo or {}).values())
 
     # -- the callback
     def cb(self, Y, info, opts):
